@@ -121,7 +121,7 @@ func (m *mux) Handle(method, pattern string, handler http.HandlerFunc) {
 
 // Vars extracts the path variables from the request context.
 func (m *mux) Vars(r *http.Request) map[string]string {
-	ctx := m.ensureContext(r)
+	ctx, escaped := m.ensureContext(r)
 	if ctx == nil {
 		return nil
 	}
@@ -131,12 +131,18 @@ func (m *mux) Vars(r *http.Request) map[string]string {
 	}
 	vars := make(map[string]string, len(params.Keys))
 	for i, k := range params.Keys {
+		v := params.Values[i]
+		if escaped {
+			// only unescape values captured from the raw path, values
+			// captured from the decoded path must not be decoded twice.
+			v = unescape(v)
+		}
 		if k == "*" {
 			wildcard := m.wildcards[r.Method+"::"+ctx.RoutePattern()]
-			vars[wildcard] = unescape(params.Values[i])
+			vars[wildcard] = v
 			continue
 		}
-		vars[k] = unescape(params.Values[i])
+		vars[k] = v
 	}
 	return vars
 }
@@ -164,7 +170,7 @@ func (m *mux) Use(f func(http.Handler) http.Handler) {
 // ResolvePattern returns the route pattern used to register the handler for the
 // given method and path.
 func (m *mux) ResolvePattern(r *http.Request) string {
-	ctx := m.ensureContext(r)
+	ctx, _ := m.ensureContext(r)
 	if ctx == nil {
 		return ""
 	}
@@ -181,17 +187,19 @@ func (m *mux) resolveWildcard(method, pattern string) string {
 }
 
 // ensureContext makes sure chi has initialized the request context if it
-// handles it, otherwise it returns nil.
-func (m *mux) ensureContext(r *http.Request) *chi.Context {
+// handles it, otherwise it returns nil. The returned boolean is true if the
+// URL parameters of the context were captured from the escaped request path.
+func (m *mux) ensureContext(r *http.Request) (*chi.Context, bool) {
 	ctx := chi.RouteContext(r.Context())
 	if ctx == nil {
-		return nil // request not handled by chi
+		return nil, false // request not handled by chi
 	}
 	if ctx.RoutePattern() != "" {
-		return ctx // already initialized
+		// already initialized: chi routes using the raw path if set
+		return ctx, r.URL.RawPath != ""
 	}
 	if !m.Router.Match(ctx, r.Method, r.URL.Path) {
-		return nil // route not handled by chi
+		return nil, false // route not handled by chi
 	}
-	return ctx
+	return ctx, false
 }
